@@ -7,7 +7,7 @@ CONSTANTS
   Pays = {0}
   Surfaces = {"typed", "compat"}
   MaxSeq = 2
-  MaxBatch = 2
+  MaxBatch = 1
   MaxOpen = 1
   HWs = {}
   ProbeIds <- MCProbeIds
